@@ -3,6 +3,7 @@ package main
 // Driver side of typeinv / typespec / globalinv / implementers / sweep (see strpred.go).
 
 import (
+	"reflect"
 	"fmt"
 	"go/types"
 	"path/filepath"
@@ -72,6 +73,40 @@ func (p *Program) declResults(prop string, cfg *PropConfig, results []*FuncResul
 			continue
 		}
 		switch d.Kind {
+		case "jsonfields":
+			parts := strings.SplitN(d.Name, ".", 2)
+			var st *types.Struct
+			if len(parts) == 2 {
+				if tp := p.pkgByName(parts[0]); tp != nil {
+					if tn, ok := tp.Scope().Lookup(parts[1]).(*types.TypeName); ok {
+						st, _ = tn.Type().Underlying().(*types.Struct)
+					}
+				}
+			}
+			if st == nil {
+				problems = append(problems, fmt.Sprintf("jsonfields %s: no such struct type in the loaded program", d.Name))
+				continue
+			}
+			names := map[string]string{}
+			for i := 0; i < st.NumFields(); i++ {
+				f := st.Field(i)
+				tag := reflect.StructTag(st.Tag(i)).Get("json")
+				name := strings.Split(tag, ",")[0]
+				switch {
+				case !f.Exported():
+					problems = append(problems, fmt.Sprintf("jsonfields %s: field %s is not exported: encoding/json drops it, a value does not survive its JSON round trip", d.Name, f.Name()))
+				case name == "-":
+					problems = append(problems, fmt.Sprintf("jsonfields %s: field %s is tagged json:\"-\": it is not carried by the encoding, a value does not survive its JSON round trip", d.Name, f.Name()))
+				default:
+					if name == "" {
+						name = f.Name()
+					}
+					if other, dup := names[strings.ToLower(name)]; dup {
+						problems = append(problems, fmt.Sprintf("jsonfields %s: fields %s and %s share the JSON name %q", d.Name, other, f.Name(), name))
+					}
+					names[strings.ToLower(name)] = f.Name()
+				}
+			}
 		case "typespec":
 			spec := p.contracts.Specs[d.Spec]
 			if spec == nil {
